@@ -4,7 +4,7 @@ import TongoModel.Helpers08
 /-! Line handlers for property C08 (totality of decoders on untrusted input). The TL decoder is run in its repaired
 configuration `Cfg.fixed`: it must agree with the current source. -/
 namespace Driver
-open Tongo Tongo.Tl Tongo.Helpers
+open Tongo Tongo.TlD Tongo.Helpers
 
 def cls {α} : Outcome α → String
   | .ok _ => "ok" | .err _ => "err" | .panic _ => "panic"
@@ -20,7 +20,7 @@ def tupleOfLen : Nat → Tuple
       | _ => .ref (tupleOfLen n)) .other
 
 def opsC08 : List (String × Handler) := [
-  ("tl.dec", fun
+  ("tld.dec", fun
     | [_, d, hx] => match parseTy d, hexArg hx with
       | some ty, some bs =>
         let (o, st) := run Cfg.fixed ty bs
@@ -29,18 +29,18 @@ def opsC08 : List (String × Handler) := [
         | o => s!"{cls o} {bs.length - st.rest.length} {allocClass st.alloc bs.length}"
       | _, _ => "bad-op"
     | _ => "bad-op"),
-  ("tl.consts", fun
+  ("tld.consts", fun
     | [_, d] => match parseTy d with
       | some ty => if ty.wf then "ok wf" else "ok notwf"
       | none => "bad-op"
     | _ => "bad-op"),
   -- not compared: the constants of tl_decode_alloc / tl_decode_steps for a descriptor (used for the report)
-  ("tl.bounds", fun
+  ("tld.bounds", fun
     | [d] => match parseTy d with
       | some ty => s!"{ty.allocA} {ty.allocB} {ty.stepK} {ty.stepS}"
       | none => "bad-op"
     | _ => "bad-op"),
-  ("tl.reqdec", fun
+  ("tld.reqdec", fun
     | [d, hx] => match hexArg hx with
       | some bs =>
         let ty? := if d == "-" then some none else (parseTy d).map some
@@ -52,7 +52,7 @@ def opsC08 : List (String × Handler) := [
           | .panic _ => "panic"
       | none => "bad-op"
     | _ => "bad-op"),
-  ("tl.len", fun
+  ("tld.len", fun
     | [hx] => match hexArg hx with
       | some bs => match decodeLength bs with
         | .ok (l, off) => s!"ok {l} {off}"
@@ -60,7 +60,7 @@ def opsC08 : List (String × Handler) := [
         | .panic _ => "panic"
       | none => "bad-op"
     | _ => "bad-op"),
-  ("tl.pqa", fun
+  ("tld.pqa", fun
     | [k, hx] => match hexArg hx with
       | some bs => match processQueryAnswer bs (k == "1") with
         | .ok d => "ok " ++ hexOut d
